@@ -16,3 +16,19 @@ Theorem C14_linux_routes_covered_stepwise :
       covered addr covers (specs a) x -> covered addr covers (specs b) x -> covered addr covers t x.
 Proof. exact routes_covered_stepwise_proved. Qed.
 Print Assumptions C14_linux_routes_covered_stepwise.
+
+(* ACL half, for the scripts without moves: new lines are inserted top-down, then
+   old lines are deleted bottom-up.  For every first-match semantics (any packet
+   type, matcher, action and default) and every packet on which the old and the
+   new ACL agree, every intermediate ACL of that shape gives the same verdict.
+   The check evaluates the shape (safe_shape) on every intermediate ACL of the
+   implementation's scripts that have no move; scripts with moves are decided by
+   the packet scan and the known findings F-C14-1 / F-C14-2. *)
+From NA Require Import Cisco.AsaAcl Cisco.StepSafe.
+Theorem C14_acl_insert_then_delete_safe_partial :
+  forall (packet : Type) (matches : entry -> packet -> bool) (permit : entry -> bool) (default : bool) st p,
+    (inserting st || deleting st)%bool = true ->
+    verdict packet matches permit default (old st) p = verdict packet matches permit default (new st) p ->
+    verdict packet matches permit default (dev st) p = verdict packet matches permit default (old st) p.
+Proof. exact insert_then_delete_safe_proved. Qed.
+Print Assumptions C14_acl_insert_then_delete_safe_partial.
